@@ -11,6 +11,7 @@
 -/
 import PysparklingVerif.Extracted.GenC06
 import PysparklingVerif.Lemmas.LazyChain
+import PysparklingVerif.Properties.C06
 namespace PysparklingVerif.Extracted.C06
 open PysparklingVerif PysparklingVerif.Lazy PysparklingVerif.Gen.C06
 
@@ -57,5 +58,31 @@ theorem isEmpty_calls {α : Type} (l : List (LStream α)) :
     isEmpty l = (if l.isEmpty then ([], true) else ((takeChain 1 l).1, (takeChain 1 l).2.length == 0)) := by
   unfold isEmpty
   rw [takeHandler_is_takeChain]
+
+-- OBLIGATION: PysparklingVerif.Extracted.C06.take_text_end_to_end
+/-- END TO END, for the text as it stands: `take(n)` of a dataset with partitions `parts` under a pipeline `ops` of any
+length - the result handler applied to the lineages of all partitions - returns the first `n` elements of the plain-list
+result, and the calls it makes to the user function of stage `j` are a PREFIX of the elements that stage applies to over
+the whole dataset: nothing is evaluated twice, nothing beyond what a full pass would evaluate -/
+theorem take_text_end_to_end {α : Type} (ops : List (LOp α)) (parts : List (List α)) (n j : Nat) (hj : j < ops.length) :
+    (takeHandler n (parts.map fun p => lineage ops 0 (source p))).2 = (parts.flatMap fun p => runListAll ops p).take n ∧
+    C06.argsOf j (takeHandler n (parts.map fun p => lineage ops 0 (source p))).1 <+:
+      parts.flatMap fun p => runListAll (ops.take j) p := by
+  have hl : (parts.map fun p => lineage ops 0 (source p)) = parts.map (C06.partStream ops) := by
+    apply List.map_congr_left
+    intro p _
+    exact lineage_is_build ops 0 (source p)
+  have hv : ∀ ps : List (List α), (ps.flatMap fun a => (pullAll (C06.partStream ops a)).2) = ps.flatMap fun p => runListAll ops p := by
+    intro ps
+    induction ps with
+    | nil => rfl
+    | cons p ps ih => simp only [List.flatMap_cons, ih, C06.lazy_values ops p]
+  rw [hl, takeHandler_is_takeChain]
+  refine ⟨?_, C06.take_never_twice ops parts n j hj⟩
+  rw [(C06.take_values_prefix n (parts.map (C06.partStream ops))).1, List.flatMap_map, hv]
+
+-- non-vacuity: two partitions, filter then map, take 2 touches only the first partition's first three elements
+example : (takeHandler 2 ([[1, 2, 3, 4], [5, 6]].map fun p => lineage [LOp.filter (fun x : Nat => x % 2 == 1), .map (· * 10)] 0 (source p)))
+    = ([⟨0, 1⟩, ⟨1, 1⟩, ⟨0, 2⟩, ⟨0, 3⟩, ⟨1, 3⟩], [10, 30]) := by decide
 
 end PysparklingVerif.Extracted.C06
